@@ -15,7 +15,7 @@ def max_dname_depth : Nat := 10
 def max_nsec3_memo_entries : Nat := 64
 def max_queryer_recursion : Nat := 32
 def max_resolution_attempts : Nat := 3
-def net_call_funcs : List String := ["dialUDP", "exchangeAdmitted"]
+def net_call_funcs : List String := ["dialUDP", "exchange"]
 def nsec3_verifier_calls : Nat := 5
 def nsec3_verifier_work_args : List String := ["r.dnssecWork(ctx)"]
 def shape_cacheable_reads_ledger_at_decision : Bool := true
@@ -25,10 +25,10 @@ def shape_chase_state_outside_loop : Bool := true
 def shape_checkhosts_uses_request_context : Bool := true
 def shape_checkloop_before_ns_lookup : Bool := true
 def shape_delegation_spends_depth : Bool := true
-def shape_dialudp_only_from_exchange : Bool := false
+def shape_dialudp_only_from_exchange : Bool := true
 def shape_dname_depth_guard : Bool := true
-def shape_exchange_debit_dominates_dial : Bool := false
-def shape_exchange_guard_dominates_dial : Bool := false
+def shape_exchange_debit_dominates_dial : Bool := true
+def shape_exchange_guard_dominates_dial : Bool := true
 def shape_level_up_only_when_minimized : Bool := true
 def shape_nomin_retry_only_when_minimized : Bool := true
 def shape_queryer_debit_before_dispatch : Bool := true
